@@ -56,6 +56,9 @@ enum Scenario {
     /// open (malformed frame from a peer that stays up, or the peer half-closes); then the peer either lets
     /// the stalled write through (`resume`) or never reads again
     FailureStalled { kind: Kind, inflight: usize, fault: SFault, resume: bool },
+    /// WebSocketClient: the failure scenario with the notification subscription replaced beforehand
+    /// (unsubscribe + subscribe, or receiver dropped + subscribe): the CURRENT subscriber must see end-of-stream
+    FailureResub { over_stale: bool, inflight: usize, fault: Fault },
 }
 
 #[derive(Clone, Copy, Debug, PartialEq, Eq)]
@@ -136,6 +139,19 @@ fn scenarios(tier: Tier) -> Vec<Scenario> {
         }
     }
     v.extend(stalled);
+    {
+        let mut faults = vec![Fault::CloseBeforeCalls, Fault::CloseAfterRequests, Fault::ResetAfterRequests, Fault::AnswerOneThenClose, Fault::MidResponse(Cut::Header)];
+        for h in [Hostile::BadSpec, Hostile::LengthMismatch, Hostile::OverflowingSum, Hostile::Declared2p62, Hostile::TrailingGarbage] {
+            faults.push(Fault::Malformed(h));
+        }
+        for over_stale in [false, true] {
+            for inflight in [0usize, 2] {
+                for &fault in &faults {
+                    v.push(Scenario::FailureResub { over_stale, inflight, fault });
+                }
+            }
+        }
+    }
     v
 }
 
@@ -177,9 +193,23 @@ async fn later_call_fails(cli: &Cli, ctx: &str, bad: &mut Bad) {
 }
 
 async fn run_failure(kind: Kind, inflight: usize, timed: bool, fault: Fault) -> (Bad, u64) {
+    run_failure_sub(kind, inflight, timed, fault, None).await
+}
+
+async fn run_failure_sub(kind: Kind, inflight: usize, timed: bool, fault: Fault, resub_over_stale: Option<bool>) -> (Bad, u64) {
     let mut bad = Bad::new();
-    let ctx = format!("{} inflight={inflight} timed={timed} fault={fault:?}", kind.name());
+    let ctx = format!("{} inflight={inflight} timed={timed} fault={fault:?}{}", kind.name(), match resub_over_stale { None => "", Some(false) => " [unsubscribed, then subscribed again]", Some(true) => " [receiver dropped, then subscribed again]" });
     let Conn { cli, mut peer, mut notifies } = clients::connect(kind).await;
+    if let (Some(over_stale), Cli::Ws(c)) = (resub_over_stale, &cli) {
+        if !over_stale {
+            c.unsubscribe_notifies();
+        }
+        drop(notifies.take());
+        match c.subscribe_notifies() {
+            Ok(rx) => notifies = Some(rx),
+            Err(_) => return (vec![("C06:harness".into(), format!("{ctx}: subscribe_notifies refused"))], 0),
+        }
+    }
     if fault == Fault::CloseBeforeCalls {
         peer.close();
         memstream::settle().await;
@@ -544,6 +574,10 @@ async fn run_plain(sc: &Scenario) -> (Bad, u64) {
         Scenario::TwoTimeouts { kind } => run_two_timeouts(*kind).await,
         Scenario::Cancel { kind, point } => run_cancel(*kind, *point).await,
         Scenario::FailureStalled { kind, inflight, fault, resume } => run_failure_stalled(*kind, *inflight, *fault, *resume).await,
+        Scenario::FailureResub { over_stale, inflight, fault } => {
+            let (b, f) = run_failure_sub(Kind::Ws, *inflight, false, *fault, Some(*over_stale)).await;
+            (b, f | 128)
+        }
     }
 }
 
@@ -563,7 +597,7 @@ pub fn run(tier: Tier) -> ! {
         |(rt, bad, flagc, n), i| {
             let (b, flags) = rt.block_on(run_one(&all[i as usize]));
             *n += 1;
-            for bit in 0..7 {
+            for bit in 0..8 {
                 if flags & (1 << bit) != 0 {
                     *flagc.entry(bit).or_insert(0) += 1;
                 }
@@ -588,16 +622,16 @@ pub fn run(tier: Tier) -> ! {
         ctx.violation(k, w, json!({"scenario": format!("{:?}", all[i]), "index": i, "tier": tier.name()}));
     }
     let g = |b: u64| flagc.get(&b).copied().unwrap_or(0);
-    if !ctx.has_violation() && (0..7).any(|b| g(b) == 0) {
+    if !ctx.has_violation() && (0..8).any(|b| g(b) == 0) {
         ctx.machinery("vacuous exploration: a scenario family never ran");
     }
     let coverage = json!({
         "evaluations": executed,
         "distinct_nontrivial": all.len(),
-        "rule": "for both tokio clients over an in-memory stream with a paused clock: every fault (peer closes before the calls / after reading them, reset, reply cut after 1/47/48/50/len-1 bytes, five kinds of malformed frame, answer one then close) x 0..3 (thorough 0..16) calls in flight x with/without per-call timeouts; a response arriving 4990/50/2 ms before a 5 s timeout and 2 ms after it, with and without another call in flight; two staggered timeouts; cancellation before start, while awaiting the response and while queued on the writer lock; a failure that leaves the client's writing side open (five malformed frames, half-close, cut reply + half-close) injected while a 20 KB request is stalled mid-write, with 0..2 (thorough 0..4) earlier calls in flight, the peer afterwards letting the stalled write through or never reading again. A call that is still pending after a virtual hour hangs. Distinct = scenarios (each has a different script).",
+        "rule": "for both tokio clients over an in-memory stream with a paused clock: every fault (peer closes before the calls / after reading them, reset, reply cut after 1/47/48/50/len-1 bytes, five kinds of malformed frame, answer one then close) x 0..3 (thorough 0..16) calls in flight x with/without per-call timeouts; a response arriving 4990/50/2 ms before a 5 s timeout and 2 ms after it, with and without another call in flight; two staggered timeouts; cancellation before start, while awaiting the response and while queued on the writer lock; a failure that leaves the client's writing side open (five malformed frames, half-close, cut reply + half-close) injected while a 20 KB request is stalled mid-write, with 0..2 (thorough 0..4) earlier calls in flight, the peer afterwards letting the stalled write through or never reading again; WebSocketClient failures with the notification subscription replaced beforehand (the current subscriber must see end-of-stream). A call that is still pending after a virtual hour hangs. Distinct = scenarios (each has a different script).",
         "samples": samples.take(),
         "exhaustive": executed == all.len() as u64,
-        "nonvacuity": {"failures_with_calls_in_flight": g(0), "subscriber_eof_checks": g(1), "timeout_scenarios": g(2), "late_responses_after_timeout": g(3), "staggered_timeouts": g(4), "cancellations": g(5), "failures_while_a_request_was_really_stalled_mid_write": g(6)},
+        "nonvacuity": {"failures_with_calls_in_flight": g(0), "subscriber_eof_checks": g(1), "timeout_scenarios": g(2), "late_responses_after_timeout": g(3), "staggered_timeouts": g(4), "cancellations": g(5), "failures_while_a_request_was_really_stalled_mid_write": g(6), "failures_with_a_replaced_subscription": g(7)},
     });
     ctx.finish(
         "fault_enumeration",
